@@ -563,6 +563,89 @@ impl<B, T, U, N: ArrayLength, F: Foreign2<B, T, U>> ForeignIter<U> for PlainZipP
                   ('pairs-ascending', ['C08'], 'forall|k: int| 0 <= k < N::n() ==> (#[trigger] ret.1.log()[k]).0 == lhs.elems()[k] && ret.1.log()[k].1 == this.elems()[k]'),
                   ('result-k-at-index-k', ['C08'], 'forall|k: int| 0 <= k < N::n() ==> (#[trigger] ret.0->Ret_0.elems()[k]) == ret.1.log()[k].2')],
                  stats, n, ['C03', 'C04', 'C08']))
+
+    # ---- FunctionalSequence::map for &S (trait default in src/functional.rs) and Clone for GenericArray (src/impls.rs) ----
+    ftext = g.src('src/functional.rs')
+    mt = re.search(r'pub trait FunctionalSequence<T>: GenericSequence<T>\s*\{', ftext)
+    if not mt:
+        raise ex.LostAnchor('trait FunctionalSequence not found')
+    ti = mt.end() - 1
+    tblock = ftext[ti + 1:ex.match_brace(ftext, ti)]
+    f = ex.find_fn(tblock, 'map', ti + 1, ftext)
+    body = ex.normalize(f['body'])
+    n = ex.statements(body)
+    if body != 'FromIterator::from_iter(self.into_iter().map(f))':
+        raise ex.Unsupported('default FunctionalSequence::map is not `FromIterator::from_iter(self.into_iter().map(f))` (rule R-pipe)')
+    g.raw("""
+// ===== closure conversion (rule R-pipe) of `self.into_iter().map(f)` for a by-reference sequence (&GenericArray: slice::Iter) =====
+pub struct RefMapPipe<'a, T, U, N: ArrayLength, F: Foreign1<&'a T, U>> {
+    pub src: &'a Slots<T, N>, pub k: usize, pub f: F, pub ret: Ghost<Seq<Option<U>>>, pub _u: core::marker::PhantomData<U>,
+}
+impl<'a, T, U, N: ArrayLength, F: Foreign1<&'a T, U>> ForeignIter<U> for RefMapPipe<'a, T, U, N, F> {
+    type K = Slots<T, N>;
+    open spec fn konst(&self) -> Slots<T, N> { *self.src }
+    open spec fn returned(&self) -> Seq<Option<U>> { self.ret@ }
+    open spec fn hint(&self) -> (usize, Option<usize>) { ((N::n() - self.k) as usize, Some((N::n() - self.k) as usize)) }
+    open spec fn inv(&self) -> bool {
+        &&& self.src.ok() && self.src.all_live() && self.k <= N::n()
+        &&& self.ret@.len() >= self.k
+        &&& self.f.log().len() == self.k
+        &&& forall|j: int| 0 <= j < self.k ==> *(#[trigger] self.f.log()[j]).0 == self.src.view()[j].unwrap()
+        &&& forall|j: int| 0 <= j < self.k ==> (#[trigger] self.ret@[j]) == Some(self.f.log()[j].1)
+        &&& forall|j: int| self.k <= j < self.ret@.len() ==> (#[trigger] self.ret@[j]).is_none()
+        &&& (self.ret@.len() > self.k ==> self.k == N::n())
+    }
+    fn next(&mut self) -> (r: Option<U>)
+    {
+        // slice::Iter::next, then Map's closure call
+        if self.k >= N::usize_() {
+            proof { self.ret = Ghost(self.ret@.push(None)); }
+            return None;
+        }
+        let x = self.src.peek(self.k);
+        self.k += 1;
+        let r = self.f.call(x);
+        proof { self.ret = Ghost(self.ret@.push(Some(r))); }
+        Some(r)
+    }
+    fn size_hint(&self) -> (r: (usize, Option<usize>)) { (N::usize_() - self.k, Some(N::usize_() - self.k)) }
+}
+""")
+    rbody = ('let mut pipe = RefMapPipe { src: this, k: 0, f: f, ret: Ghost(Seq::empty()), _u: core::marker::PhantomData }; proof { assert(pipe.inv()); } '
+             'let r = from_iter::<U, N, RefMapPipe<T, U, N, F>>(&mut pipe); '
+             'proof { assert(pipe.k == N::n()); assert forall|k: int| 0 <= k < N::n() implies (#[trigger] r->Ret_0.elems()[k]) == pipe.f.log()[k].1 by { '
+             'assert(pipe.returned()[k] == Some(r->Ret_0.elems()[k])); assert(pipe.ret@[k] == Some(pipe.f.log()[k].1)); } } '
+             'let RefMapPipe { src: _, k: _, f, ret: _, _u: _ } = pipe; (r, f)')
+    g.emit_fn(Fn('map_ref', 'src/functional.rs', f['line'], f['sig'],
+                 "pub fn map_ref<'a, T, U, N: ArrayLength, F: Foreign1<&'a T, U>>(this: &'a Slots<T, N>, f: F) -> (ret: (PanicOr<GenericArray<U, N>>, F))", rbody,
+                 ['this.ok()', 'this.all_live()', 'f.log().len() == 0'],
+                 [('never-the-length-panic', ['C08'], 'ret.0 is Ret'),
+                  ('once-per-index', ['C08'], 'ret.1.log().len() == N::n()'),
+                  ('ascending', ['C08'], 'forall|k: int| 0 <= k < N::n() ==> *(#[trigger] ret.1.log()[k]).0 == this.view()[k].unwrap()'),
+                  ('result-k-at-index-k', ['C08'], 'forall|k: int| 0 <= k < N::n() ==> (#[trigger] ret.0->Ret_0.elems()[k]) == ret.1.log()[k].1')],
+                 {'R-pipe': 1, 'R-foreign': 1}, n, ['C04', 'C08']))
+    # Clone for GenericArray: `self.map(Clone::clone)` - the by-reference map with Clone::clone as the function
+    f = g.extract_method('src/impls.rs', 'impl<T: Clone, N: ArrayLength> Clone for GenericArray<T, N>', 'clone')
+    body = ex.normalize(f['body'])
+    if body != 'self.map(Clone::clone)':
+        raise ex.Unsupported('Clone for GenericArray is not `self.map(Clone::clone)`')
+    g.emit_fn(Fn('clone_array', 'src/impls.rs', f['line'], f['sig'],
+                 "pub fn clone_array<'a, T, N: ArrayLength, F: Foreign1<&'a T, T>>(this: &'a Slots<T, N>, clone: F) -> (ret: (PanicOr<GenericArray<T, N>>, F))",
+                 'map_ref::<T, T, N, F>(this, clone)',
+                 ['this.ok()', 'this.all_live()', 'clone.log().len() == 0'],
+                 [('clone-once-per-element-in-order', ['C08'], 'ret.0 is Ret && ret.1.log().len() == N::n() && forall|k: int| 0 <= k < N::n() ==> *(#[trigger] ret.1.log()[k]).0 == this.view()[k].unwrap()'),
+                  ('clone-k-at-index-k', ['C08'], 'forall|k: int| 0 <= k < N::n() ==> (#[trigger] ret.0->Ret_0.elems()[k]) == ret.1.log()[k].1')],
+                 {'R-call': 1}, 1, ['C04', 'C08']))
+    # Default for GenericArray: `Self::generate(|_| T::default())`
+    f = g.extract_method('src/impls.rs', 'impl<T: Default, N: ArrayLength> Default for GenericArray<T, N>', 'default')
+    body = ex.normalize(f['body'])
+    if body != 'Self::generate(|_| T::default())':
+        raise ex.Unsupported('Default for GenericArray is not `Self::generate(|_| T::default())`')
+    g.emit_fn(Fn('default_array', 'src/impls.rs', f['line'], f['sig'],
+                 'pub fn default_array<T, N: ArrayLength, F: Foreign1<usize, T>>(default_: &mut F) -> (ret: GenericArray<T, N>)',
+                 'generate::<T, N, F>(default_)', ['old(default_).log().len() == 0'],
+                 [('default-once-per-element', ['C08'], 'final(default_).log().len() == N::n() && forall|k: int| 0 <= k < N::n() ==> ret.elems()[k] == (#[trigger] final(default_).log()[k]).1')],
+                 {'R-call': 1}, 1, ['C04', 'C08']))
     g.raw('proof fn canary() { assert(false); } /*OB:canary:*/')
     g.raw('} // verus!\nfn main() {}\n')
 
